@@ -39,6 +39,10 @@ pub enum Op {
     Touch(u8),
     /// delete by key (name / module+name) through the collection's remove-by-name API
     Remove(u8),
+    /// collection-specific indirect addition (types: a FunctionBuilder is
+    /// created for the pooled signature, which adds that type and a hidden
+    /// function-entry type)
+    Aux(u8),
 }
 
 fn quiet<T>(f: impl FnOnce() -> T) -> Option<T> {
@@ -77,6 +81,11 @@ trait Coll {
     }
     /// ids yielded by the mutable iterator, if the collection has one
     fn iter_mut_ids(&mut self) -> Option<Vec<Self::Id>> {
+        None
+    }
+    /// indirect addition of pool value `v`; returns the id the item can be
+    /// found under afterwards (None = unsupported)
+    fn aux_add(&mut self, _v: &Self::Val) -> Option<Self::Id> {
         None
     }
     /// collection-specific lookups compared with the model's live items
@@ -127,6 +136,35 @@ fn run_seq<C: Coll>(ops: &[Op]) -> Result<bool, Failure> {
                                     step, old, was
                                 ),
                             ));
+                        }
+                        items.push((id, Some(v.clone())));
+                        if deleted_live {
+                            del_then_add = true;
+                        }
+                    }
+                }
+            }
+            Op::Aux(vi) => {
+                let v = pool[*vi as usize % pool.len()].clone();
+                let id = match quiet(|| c.aux_add(&v)) {
+                    None => return Err(fail("aux-add-panicked", format!("step {} aux({:?})", step, v))),
+                    Some(None) => continue,
+                    Some(Some(id)) => id,
+                };
+                let existing = if c.dedup() {
+                    items.iter().find(|(_, x)| x.as_ref() == Some(&v)).map(|(i, _)| *i)
+                } else {
+                    None
+                };
+                match existing {
+                    Some(e) => {
+                        if e != id {
+                            return Err(fail("dedup-missed", format!("step {}: indirect add of a present value gave {:?}, existing id is {:?}", step, id, e)));
+                        }
+                    }
+                    None => {
+                        if let Some((old, was)) = items.iter().find(|(i, _)| *i == id) {
+                            return Err(fail("id-reused", format!("step {}: indirect add returned {:?}, already issued (for {:?})", step, old, was)));
                         }
                         items.push((id, Some(v.clone())));
                         if deleted_live {
@@ -190,7 +228,7 @@ fn run_seq<C: Coll>(ops: &[Op]) -> Result<bool, Failure> {
         // id could alias them), right after their own deletion and at the
         // end; a delete of another id cannot make them resolve again without
         // also showing up in the iteration compared below.
-        let probe_dead = matches!(op, Op::Add(_) | Op::Remove(_)) || step + 1 == ops.len();
+        let probe_dead = matches!(op, Op::Add(_) | Op::Remove(_) | Op::Aux(_)) || step + 1 == ops.len();
         let just_deleted = match op {
             Op::Del(k) => Some(*k as usize),
             _ => None,
@@ -266,6 +304,11 @@ impl Coll for Types {
     fn touch(&mut self, id: TypeId) {
         self.0.types.get_mut(id).name = Some(format!("named{}", id.index()));
     }
+    fn aux_add(&mut self, v: &Self::Val) -> Option<TypeId> {
+        // creating a builder adds the signature and a hidden entry type
+        let _b = FunctionBuilder::new(&mut self.0.types, &v.0, &v.1);
+        self.0.types.find(&v.0, &v.1)
+    }
     fn add(&mut self, v: &Self::Val) -> Result<TypeId, ()> {
         quiet(|| self.0.types.add(&v.0, &v.1)).ok_or(())
     }
@@ -280,9 +323,14 @@ impl Coll for Types {
         })
     }
     fn iter(&self) -> Vec<(TypeId, Self::Val)> {
+        // ModuleTypes::iter also yields the hidden function-entry types that
+        // builders create (no parameters); they cannot be told apart through
+        // the public API, so parameterless entries that `find` does not
+        // resolve to are left out of the comparison
         self.0
             .types
             .iter()
+            .filter(|t| !t.params().is_empty() || self.0.types.find(t.params(), t.results()) == Some(t.id()))
             .map(|t| (t.id(), (t.params().to_vec(), t.results().to_vec())))
             .collect()
     }
@@ -853,6 +901,20 @@ impl Funcs {
     }
 }
 
+#[derive(Debug)]
+struct OtherSection {
+    name: String,
+    data: Vec<u8>,
+}
+impl CustomSection for OtherSection {
+    fn name(&self) -> &str {
+        &self.name
+    }
+    fn data(&self, _: &IdsToIndices) -> std::borrow::Cow<[u8]> {
+        self.data.as_slice().into()
+    }
+}
+
 struct Customs {
     m: Module,
     ids: Vec<UntypedCustomSectionId>,
@@ -860,7 +922,8 @@ struct Customs {
 impl Coll for Customs {
     const NAME: &'static str = "customs";
     type Id = usize; // index into self.ids (custom ids are opaque, compare by position)
-    type Val = (String, Vec<u8>);
+    /// (name, payload, is a RawCustomSection)
+    type Val = (String, Vec<u8>, bool);
     fn new() -> Self {
         Customs {
             m: Module::default(),
@@ -868,17 +931,34 @@ impl Coll for Customs {
         }
     }
     fn pool(&self) -> Vec<Self::Val> {
-        vec![("a".into(), vec![1]), ("b".into(), vec![2]), ("a".into(), vec![3])]
+        vec![
+            ("a".into(), vec![1], true),
+            ("b".into(), vec![2], true),
+            ("a".into(), vec![3], true),
+            ("a".into(), vec![9], false),
+            ("b".into(), vec![8], false),
+        ]
     }
     fn add(&mut self, v: &Self::Val) -> Result<usize, ()> {
-        let id = quiet(|| {
-            self.m.customs.add(RawCustomSection {
-                name: v.0.clone(),
-                data: v.1.clone(),
+        let u: UntypedCustomSectionId = if v.2 {
+            quiet(|| {
+                self.m.customs.add(RawCustomSection {
+                    name: v.0.clone(),
+                    data: v.1.clone(),
+                })
             })
-        })
-        .ok_or(())?;
-        let u: UntypedCustomSectionId = id.into();
+            .ok_or(())?
+            .into()
+        } else {
+            quiet(|| {
+                self.m.customs.add(OtherSection {
+                    name: v.0.clone(),
+                    data: v.1.clone(),
+                })
+            })
+            .ok_or(())?
+            .into()
+        };
         if let Some(p) = self.ids.iter().position(|x| *x == u) {
             return Ok(p); // id reuse: reported by the driver
         }
@@ -893,7 +973,8 @@ impl Coll for Customs {
         Some(self.m.customs.remove_raw(&v.0).is_some())
     }
     fn same_key(a: &Self::Val, b: &Self::Val) -> bool {
-        a.0 == b.0
+        // remove_raw(name) removes the first live *raw* section of that name
+        a.0 == b.0 && a.2
     }
     fn iter_mut_ids(&mut self) -> Option<Vec<usize>> {
         let ids = self.ids.clone();
@@ -912,6 +993,7 @@ impl Coll for Customs {
                 (
                     s.name().to_string(),
                     s.data(&IdsToIndices::default()).to_vec(),
+                    s.as_any().is::<RawCustomSection>(),
                 )
             })
         })
@@ -924,20 +1006,24 @@ impl Coll for Customs {
             .map(|(u, s)| {
                 (
                     self.ids.iter().position(|x| *x == u).unwrap_or(usize::MAX),
-                    (s.name().to_string(), s.data(&IdsToIndices::default()).to_vec()),
+                    (
+                        s.name().to_string(),
+                        s.data(&IdsToIndices::default()).to_vec(),
+                        s.as_any().is::<RawCustomSection>(),
+                    ),
                 )
             })
             .collect()
     }
     fn lookups(&self, live: &[(usize, Self::Val)]) -> Result<(), String> {
-        let want = live.first().map(|(_, v)| v.clone());
+        let want = live.iter().find(|(_, v)| v.2).map(|(_, v)| v.clone());
         let got = self
             .m
             .customs
             .get_typed::<RawCustomSection>()
-            .map(|s| (s.name.clone(), s.data.clone()));
+            .map(|s| (s.name.clone(), s.data.clone(), true));
         if got != want {
-            return Err(format!("get_typed::<RawCustomSection>() = {:?}, expected first live {:?}", got, want));
+            return Err(format!("get_typed::<RawCustomSection>() = {:?}, expected first live raw section {:?}", got, want));
         }
         Ok(())
     }
@@ -971,6 +1057,7 @@ fn ops_to_json(coll: &str, ops: &[Op]) -> serde_json::Value {
         Op::Del(k) => format!("del:{}", k),
         Op::Touch(k) => format!("touch:{}", k),
         Op::Remove(k) => format!("remove:{}", k),
+        Op::Aux(k) => format!("aux:{}", k),
     }).collect::<Vec<_>>()})
 }
 
@@ -985,6 +1072,7 @@ fn ops_from_json(v: &serde_json::Value) -> Option<(String, Vec<Op>)> {
             "add" => Op::Add(n),
             "touch" => Op::Touch(n),
             "remove" => Op::Remove(n),
+            "aux" => Op::Aux(n),
             _ => Op::Del(n),
         });
     }
@@ -1003,7 +1091,13 @@ fn decode_choices(bytes: &[u8]) -> (String, Vec<Op>) {
         match ch.below(10) {
             0..=4 => ops.push(Op::Add(ch.below(6) as u8)),
             5..=7 => ops.push(Op::Del(ch.below(24) as u8)),
-            8 => ops.push(Op::Touch(ch.below(24) as u8)),
+            8 => {
+                if ch.bool() {
+                    ops.push(Op::Touch(ch.below(24) as u8))
+                } else {
+                    ops.push(Op::Aux(ch.below(6) as u8))
+                }
+            }
             _ => ops.push(Op::Remove(ch.below(6) as u8)),
         }
     }
@@ -1066,10 +1160,18 @@ fn run(ctx: &Ctx) {
         match *coll {
             "types" => {
                 alphabet.push(Op::Touch(0));
-                alphabet.push(Op::Touch(1));
+                alphabet.push(Op::Aux(0));
+                alphabet.push(Op::Aux(1));
                 len -= 1;
             }
-            "exports" | "imports" | "customs" => {
+            "exports" | "imports" => {
+                alphabet.push(Op::Remove(0));
+                alphabet.push(Op::Remove(1));
+                len -= 1;
+            }
+            "customs" => {
+                // a non-raw section sharing a raw section's name
+                alphabet.push(Op::Add(3));
                 alphabet.push(Op::Remove(0));
                 alphabet.push(Op::Remove(1));
                 len -= 1;
